@@ -888,12 +888,31 @@ def _simplify(c):
     if len(c) == 2 and c[0] == "neg" and isinstance(c[1], tuple) and c[1][:1] == ("const",) and len(c[1]) == 2 \
             and isinstance(c[1][1], int) and not isinstance(c[1][1], bool):
         return _const(-c[1][1])
+    def is_int(t):
+        return isinstance(t, tuple) and len(t) == 2 and t[0] == "const" and isinstance(t[1], int) and not isinstance(t[1], bool)
     if c and c[0] == "+":
-        terms = [t for t in c[1:] if t != ("const", 0)]
+        # integer literals are added up: -(2 + 1) = -3, n + 1 with n = 2 is 3 (index arithmetic of written-out loops)
+        ints = [t[1] for t in c[1:] if is_int(t)]
+        terms = [t for t in c[1:] if not is_int(t)]
+        if sum(ints) != 0 or not terms:
+            terms.append(_const(sum(ints)))
         if len(terms) == 1:
             return terms[0]
         return ("+",) + tuple(sorted(terms, key=repr))
-    if c and c[0] in ("*", "&", "|") and all(not isinstance(t, str) or True for t in c[1:]):
+    if c and c[0] == "*":
+        ints = [t[1] for t in c[1:] if is_int(t)]
+        terms = [t for t in c[1:] if not is_int(t)]
+        prod = 1
+        for v in ints:
+            prod *= v
+        if ints and (prod != 1 or not terms) and len(ints) > 1:
+            terms.append(_const(prod))
+        elif ints and not (prod == 1 and terms and len(ints) > 1):
+            terms.extend(_const(v) for v in ints)
+        if len(terms) == 1:
+            return terms[0]
+        return ("*",) + tuple(sorted(terms, key=repr))
+    if c and c[0] in ("&", "|") and all(not isinstance(t, str) or True for t in c[1:]):
         return (c[0],) + tuple(sorted(c[1:], key=repr))      # operands replaced by the hoisting are put in order again
     return c
 
